@@ -332,11 +332,11 @@ theorem cond_equivariant_of_exact {rnd : K → Int} {thr thr' : K} {fuel fuel' :
 section NonVacuity
 
 /-- four states: 0 Player 1 (actions `l` to 1, `r` to 2), 1 probabilistic (1/2 to the final
-state 3, 1/2 back to 0), 2 Player 2 (`u` to 3, `d` to itself), 3 final and absorbing -/
+state 3, 1/2 to 2), 2 Player 2 (`u` to 3, `d` to itself: value 0), 3 final and absorbing -/
 def exG : Game Rat where
   rewards := #[1, 2, 3, 0]
   owners := #[.p1, .prob, .p2, .prob]
-  tl := #[[⟨"l", 0, 1⟩, ⟨"r", 0, 2⟩], [⟨"a", 1/2, 3⟩, ⟨"a", 1/2, 0⟩],
+  tl := #[[⟨"l", 0, 1⟩, ⟨"r", 0, 2⟩], [⟨"a", 1/2, 3⟩, ⟨"a", 1/2, 2⟩],
           [⟨"u", 0, 3⟩, ⟨"d", 0, 2⟩], [⟨"a", 1, 3⟩]]
   finals := [3]
 
@@ -352,7 +352,7 @@ def exG' : Game Rat where
   rewards := #[1, 3, 2, 0]
   owners := #[.p1, .p2, .prob, .prob]
   tl := #[[⟨"z_r", 0, 1⟩, ⟨"z_l", 0, 2⟩], [⟨"z_u", 0, 3⟩, ⟨"z_d", 0, 1⟩],
-          [⟨"z_a", 1/2, 0⟩, ⟨"z_a", 1/2, 3⟩], [⟨"z_a", 1, 3⟩]]
+          [⟨"z_a", 1/2, 1⟩, ⟨"z_a", 1/2, 3⟩], [⟨"z_a", 1, 3⟩]]
   finals := [3]
 
 private theorem four {P : Nat → Prop} (h0 : P 0) (h1 : P 1) (h2 : P 2) (h3 : P 3) :
@@ -361,7 +361,7 @@ private theorem four {P : Nat → Prop} (h0 : P 0) (h1 : P 1) (h2 : P 2) (h3 : P
   have : s = 0 ∨ s = 1 ∨ s = 2 ∨ s = 3 := by omega
   rcases this with rfl | rfl | rfl | rfl <;> assumption
 
-theorem exPresents : Presents exπ exρ exG exG' where
+private theorem exPresents : Presents exπ exρ exG exG' where
   n_owners := rfl
   n_tl := rfl
   n_rewards := rfl
@@ -380,30 +380,29 @@ theorem exPresents : Presents exπ exρ exG exG' where
   finals := four (by decide) (by decide) (by decide) (by decide)
   ρ_inj := fun _ _ hab => (String.append_right_inj "z_").mp hab
 
+/-- the set-up is satisfiable: `exG'` re-presents `exG` (state swap, two rows reordered, all
+actions renamed) -/
 example : Presents exπ exρ exG exG' := exPresents
 
-example : TgtOk exG := by
-  refine ⟨rfl, four ?_ ?_ ?_ ?_⟩ <;> simp [exG]
-
-example : C01.WF exG := by
+private theorem exWF : C01.WF exG := by
   refine ⟨rfl, four ?_ ?_ ?_ ?_, four ?_ ?_ ?_ ?_⟩ <;> simp [exG]
   norm_num
+
+example : C01.WF exG := exWF
+
+example : TgtOk exG := tgtOk_of_wf exWF
 
 /-- a transported pair -/
 example : Transports exπ 4 (#[5, 6, 7, 8] : Array Rat) #[5, 7, 6, 8] :=
   ⟨rfl, rfl, four rfl rfl rfl rfl⟩
 
 /-- the conclusion of 2 on the example, with both sides evaluated: the probabilistic state 1 of
-`exG` (state 2 of `exG'`) has Bellman value `8 · 1/2 + 5 · 1/2 = 13/2` -/
+`exG` (state 2 of `exG'`) has Bellman value `8 · 1/2 + 7 · 1/2 = 15/2` -/
 example : C01.Bell exG' #[5, 7, 6, 8] (exπ 1) = C01.Bell exG #[5, 6, 7, 8] 1 ∧
-    C01.Bell exG #[5, 6, 7, 8] 1 = 13 / 2 := by
+    C01.Bell exG #[5, 6, 7, 8] 1 = 15 / 2 := by
   refine ⟨bell_equivariant (x := #[5, 6, 7, 8]) (x' := #[5, 7, 6, 8]) exPresents
-    ⟨rfl, four ?_ ?_ ?_ ?_⟩ (four rfl rfl rfl rfl) 1 (by decide), ?_⟩
-  · simp [exG]
-  · simp [exG]
-  · simp [exG]
-  · simp [exG]
-  · simp [C01.Bell, stepReach, exG]; norm_num
+    (tgtOk_of_wf exWF) (four rfl rfl rfl rfl) 1 (by decide), ?_⟩
+  simp [C01.Bell, stepReach, exG]; norm_num
 
 /-- related strategy tables -/
 example : StratRel exπ exρ 4 #[some ["l"], none, some ["u", "d"], none]
@@ -416,6 +415,113 @@ example : StratRel exπ exρ 4 #[some ["l"], none, some ["u", "d"], none]
   refine four ?_ ?_ ?_ ?_ <;> intro a <;> simp [exπ, exρ, Array.getD]
   · rw [l1, e]
   · rw [l2, l3]; simp only [e]; exact Bool.or_comm _ _
+
+/-! The hypotheses of 5 / 7' / 7'' (two successful runs whose last sweep changed nothing) are
+satisfiable: with threshold 0 both presentations of the example stop after three sweeps, the
+third of which changes nothing.  (`reverseDfs` is defined by well-founded recursion and does not
+reduce in the kernel; its value is computed by rewriting, everything else by kernel evaluation.) -/
+
+private theorem ok_of_toOption {ε σ : Type} {r : Except ε σ} {a : σ}
+    (h : r.toOption = some a) : r = .ok a := by
+  cases r with
+  | error e => cases h
+  | ok o => simp only [Except.toOption, Option.some.injEq] at h; rw [h]
+
+private theorem exOrd : VI.gameOrder exG = [0, 1, 2] := by
+  have hrev : revTable (exG.tl.toList.map (fun row => row.map (·.tgt)))
+      = #[[], [0], [0, 1, 2], [1, 2, 3]] := by decide +kernel
+  unfold VI.gameOrder reverseDfs
+  rw [hrev]
+  simp [exG, dfsLoop, List.mergeSort]
+
+private theorem exOrd' : VI.gameOrder exG' = [0, 1, 2] := by
+  have hrev : revTable (exG'.tl.toList.map (fun row => row.map (·.tgt)))
+      = #[[], [0, 1, 2], [0], [1, 2, 3]] := by decide +kernel
+  unfold VI.gameOrder reverseDfs
+  rw [hrev]
+  simp [exG', dfsLoop, List.mergeSort]
+
+private theorem exVi :
+    (viReach exG.owners exG.tl [0, 1, 2] 0 10 1 (VI.initVec exG) 0).toOption
+      = some (#[1/2, 1/2, 0, 1], 3) := by decide +kernel
+
+private theorem exVi' :
+    (viReach exG'.owners exG'.tl [0, 1, 2] 0 10 1 (VI.initVec exG') 0).toOption
+      = some (#[1/2, 0, 1/2, 1], 3) := by decide +kernel
+
+/-- the run on `exG` -/
+def exR : ReachOut Rat :=
+  ⟨#[1/2, 1/2, 0, 1], reachStrategies (fun _ => 0) exG.owners exG.tl #[1/2, 1/2, 0, 1], 3,
+    [0, 1, 2]⟩
+
+/-- the run on `exG'` -/
+def exR' : ReachOut Rat :=
+  ⟨#[1/2, 0, 1/2, 1], reachStrategies (fun _ => 0) exG'.owners exG'.tl #[1/2, 0, 1/2, 1], 3,
+    [0, 1, 2]⟩
+
+private theorem exRun : solveReach (fun _ => 0) (0 : Rat) 10 true exG = .ok exR := by
+  have hc : checkGame exG = .ok () := by decide +kernel
+  have hi : initStates exG = .ok () := by decide +kernel
+  unfold solveReach
+  simp only [bind, Except.bind, hc, hi]
+  rw [show reverseDfs (exG.tl.toList.map (fun row => row.map (·.tgt))) exG.finals = [0, 1, 2]
+    from exOrd]
+  rw [show (Array.range exG.owners.size).map
+    (fun s => if exG.finals.contains s then (1 : Rat) else 0) = VI.initVec exG from rfl]
+  rw [ok_of_toOption exVi]
+  show (if (true && (#[1/2, 1/2, 0, 1] : Array Rat).getD 0 0 == 0) = true then _ else _) = _
+  rw [if_neg (by decide +kernel)]
+  rfl
+
+private theorem exRun' : solveReach (fun _ => 0) (0 : Rat) 10 true exG' = .ok exR' := by
+  have hc : checkGame exG' = .ok () := by decide +kernel
+  have hi : initStates exG' = .ok () := by decide +kernel
+  unfold solveReach
+  simp only [bind, Except.bind, hc, hi]
+  rw [show reverseDfs (exG'.tl.toList.map (fun row => row.map (·.tgt))) exG'.finals = [0, 1, 2]
+    from exOrd']
+  rw [show (Array.range exG'.owners.size).map
+    (fun s => if exG'.finals.contains s then (1 : Rat) else 0) = VI.initVec exG' from rfl]
+  rw [ok_of_toOption exVi']
+  show (if (true && (#[1/2, 0, 1/2, 1] : Array Rat).getD 0 0 == 0) = true then _ else _) = _
+  rw [if_neg (by decide +kernel)]
+  rfl
+
+private theorem exSw : sweepReach exG.owners exG.tl exR.order exR.probs = (exR.probs, 0) := by
+  decide +kernel
+
+private theorem exSw' :
+    sweepReach exG'.owners exG'.tl exR'.order exR'.probs = (exR'.probs, 0) := by
+  decide +kernel
+
+/-- all hypotheses of `solve_equivariant_of_exact` hold for the example -/
+example : solveReach (fun _ => 0) (0 : Rat) 10 true exG = .ok exR ∧
+    solveReach (fun _ => 0) (0 : Rat) 10 true exG' = .ok exR' ∧
+    sweepReach exG.owners exG.tl exR.order exR.probs = (exR.probs, 0) ∧
+    sweepReach exG'.owners exG'.tl exR'.order exR'.probs = (exR'.probs, 0) :=
+  ⟨exRun, exRun', exSw, exSw'⟩
+
+/-- ... and its conclusion is what the two concrete reports show: `[1/2, 1/2, 0, 1]` and
+`[1/2, 0, 1/2, 1]` are related by the swap of states 1 and 2 -/
+example : ∀ s < 4, exR'.probs.getD (exπ s) 0 = exR.probs.getD s 0 :=
+  solve_equivariant_of_exact exPresents exWF exRun exRun' _ exSw _ exSw'
+
+/-- the value of the example is `[1/2, 1/2, 0, 1]`, so the hypothesis `IsValue g v` of
+`both_below_same_value` is satisfiable, and state 2 (Player 2 can stay forever) is in the zero
+set while the initial state is not: the game is declared solvable in both presentations -/
+example : C01.IsValue exG #[1/2, 1/2, 0, 1] ∧ C01.IsValue exG' #[1/2, 0, 1/2, 1] ∧
+    exR.probs.getD 0 0 ≠ 0 ∧ exR'.probs.getD 0 0 ≠ 0 :=
+  ⟨isValue_of_zero_diff exWF exRun _ exSw,
+    isValue_of_zero_diff (wf_equivariant exPresents exWF) exRun' _ exSw',
+    by decide +kernel, by decide +kernel⟩
+
+/-- the reported strategies of the two runs (rounding function `fun _ => 0`, so every action
+ties): `l, r` at state 0 become `z_r, z_l` — the renamed actions, in the order of the reordered
+row -/
+example : StratPerm exρ (exR.strat.getD 0 none) (exR'.strat.getD (exπ 0) none) ∧
+    exR.strat.getD 0 none = some ["l", "r"] ∧ exR'.strat.getD 0 none = some ["z_r", "z_l"] :=
+  ⟨strategies_equivariant_of_exact exPresents exWF exRun exRun' _ exSw _ exSw' 0 (by decide),
+    by decide +kernel, by decide +kernel⟩
 
 end NonVacuity
 
